@@ -169,6 +169,18 @@ def compare_walker(s, pos, tol, rng, rec):
             return None
         return (dump(n), n.pos, n.pos_end - n.pos)
     cmp('get_latex_maybe_optional_arg', None, run(old_oa), run(new_oa))
+    # explicit parsing_state (math mode) must reach the nodes of the optional argument / expression
+    psm = w.make_parsing_state(in_math_mode=True, math_mode_delimiter='x')
+
+    def old_oa_ps():
+        r = w.get_latex_maybe_optional_arg(pos, parsing_state=psm)
+        return None if r is None else (dump(r[0]), r[1], r[2])
+
+    def new_oa_ps():
+        tr = w.make_token_reader(pos=pos)
+        n, _ = w.parse_content(P.LatexOptionalSquareBracketsParser(), token_reader=tr, parsing_state=psm)
+        return None if n is None else (dump(n), n.pos, n.pos_end - n.pos)
+    cmp('get_latex_maybe_optional_arg', 'parsing_state', run(old_oa_ps), run(new_oa_ps))
     # ---- expression
     sb = rng.choice([None, True, False])
 
@@ -222,6 +234,25 @@ def compare_walker(s, pos, tol, rng, rec):
     a, b = run(old_env), run(new_env)
     if b[0] == 'ok' or a[0] == 'ok' or a[0] == 'EXC':
         cmp('get_latex_environment', None, a, b)
+        if b[0] == 'ok':
+            # environmentname= selects: same result for the right name, a parse error for another name
+            realname = b[1][0]['name']
+            a2 = run(lambda: (dump(w.get_latex_environment(pos, environmentname=realname)[0]),))
+            if a2 != ('ok', (b[1][0],)):
+                out.append(('get_latex_environment', realname, 'get_latex_environment(environmentname=%r) -> %s, expected the '
+                            'environment node %s' % (realname, _brief(a2), _brief(b[1][0]))))
+            a3 = run(lambda: w.get_latex_environment(pos, environmentname=realname + 'x')[1])
+            if a3[0] != 'err':
+                out.append(('get_latex_environment', realname + 'x', 'get_latex_environment(environmentname=%r) on environment %r '
+                            '-> %s, expected a parse error' % (realname + 'x', realname, _brief(a3))))
+            # an explicitly passed parsing state is honoured (math mode recorded on the node)
+            psm = w.make_parsing_state(in_math_mode=True, math_mode_delimiter='x')
+            a4 = run(lambda: dump(w.get_latex_environment(pos, parsing_state=psm)[0])['ps'])
+            tr4 = w.make_token_reader(pos=pos)
+            b4 = run(lambda: dump(w.parse_content(P.LatexSingleNodeParser(), token_reader=tr4, parsing_state=psm)[0][0])['ps'])
+            if a4 != b4:
+                out.append(('get_latex_environment', 'parsing_state', 'explicit parsing_state: legacy node records %s, new parser %s'
+                            % (_brief(a4), _brief(b4))))
     else:
         rec.monitor('legacy_calls_compared')
         rec.hist('method', 'get_latex_environment')
